@@ -92,11 +92,16 @@ def generate(rng, tier):
         cases.append({"kind": "g", "g": kind, "args": args, "events": ev, "family": "gate/%s/%s" % (kind, fam)})
     return cases
 
+def rng_pad(v):
+    """trailing blanks / line end the board may send after the number (deterministic in the version text)"""
+    return ["", " ", "\r\n", "  \r\n"][sum(map(ord, v)) % 4]
+
 def run_impl(c):
     if c["kind"] == "v":
         ref = vparse(c["have"]) >= vparse(c["want"])
-        e = ebb3_serial.EBB3(); e.version_parsed = ebb3_serial.parse(c["have"])
-        r3 = e.min_version(c["want"])
+        # the version reaches the object the way connect() stores it: through parse_version() on the board's reply
+        e = ebb3_serial.EBB3(); e.parse_version("EBBv13_and_above EB Firmware Version " + c["have"] + rng_pad(c["have"]))
+        r3 = e.min_version(c["want"]) if e.version_parsed is not None else None
         script = S.Script(["E", ("L", "EBBv13_and_above EB Firmware Version " + c["have"])]); port = S.FakePort(script)
         rl = ebb_serial.min_version(port, c["want"])
         return {"ref": bool(ref), "ebb3": r3, "legacy": rl}
